@@ -241,9 +241,13 @@ async def run_serial(ctx) -> None:
     # happens -- each of them passed (or will pass) the bucket test on the same stale balance, so the
     # bucket may be overdrawn by one frame per such pending write (the statement's last allowance term)
     PEND = []
+    call_of = {f: ct for (ct, b, f) in call_t}
     for k in range(n):
         fk = out[k][1]
-        PEND.append(sum(b for (ct, b, f) in call_t if f != fk and ct <= ts[k] + 1e-9 and write_t.get(f, 1e18) >= ts[k] - 1e-9))
+        at_write = sum(b for (ct, b, f) in call_t if f != fk and ct <= ts[k] + 1e-9 and write_t.get(f, 1e18) >= ts[k] - 1e-9)
+        ck = call_of.get(fk, ts[k])  # the bucket test happens when write_frame() is called
+        at_call = sum(b for (ct, b, f) in call_t if f != fk and ct <= ck + 1e-9 and write_t.get(f, 1e18) >= ck - 1e-9)
+        PEND.append(max(at_write, at_call))
     for i in range(n):
         pmax = 0
         for j in range(i, n):
